@@ -288,6 +288,14 @@ func (p *prop) genCase(rng *core.Rand, load bool) string {
 	default:
 		c.path = rng.Pick(pathPool)
 	}
+	if rng.Chance(1, 40) {
+		// the most dangerous request: POST /stop, directly or through an /id/ redirect
+		c.method, c.path = "POST", "/stop"
+		if rng.Chance(1, 3) {
+			c.idxKeys, c.idxVals = append(c.idxKeys, "halt"), append(c.idxVals, rng.Pick([]string{"/stop", "/config/../stop", "/"}))
+			c.path = rng.Pick([]string{"/id/halt", "/id/halt/stop"})
+		}
+	}
 	if rng.Chance(1, 8) {
 		for n := 1 + rng.Intn(2); n > 0; n-- {
 			c.upg = append(c.upg, rng.Pick(upgradePool))
@@ -346,7 +354,7 @@ var malformed = []string{
 	// probe pattern equal to a built-in ("/stop"), duplicate probe patterns
 	"req L 6c6f63616c686f73743a32303139:n ~ 0 ~ 2f73746f70 . 474554 6c6f63616c686f73743a32303139 2f636f6e6669672f . -:1:-:- -:1:-:- ~",
 	"req L 6c6f63616c686f73743a32303139:n ~ 0 ~ 2f70,2f70 . 474554 6c6f63616c686f73743a32303139 2f636f6e6669672f . -:1:-:- -:1:-:- ~",
-	// CONNECT with an unclean path, POST /stop, empty method, key id 8
+	// CONNECT with an unclean path, empty method, key id 8
 	"req L 6c6f63616c686f73743a32303139:n ~ 0 ~ . . 434f4e4e454354 6c6f63616c686f73743a32303139 2f2f61 . -:1:-:- -:1:-:- ~",
 	"req L 6c6f63616c686f73743a32303139:n ~ 0 ~ . . 504f5354 6c6f63616c686f73743a32303139 2f73746f70 . -:1:-:- -:1:-:- ~",
 	"req L 6c6f63616c686f73743a32303139:n ~ 0 ~ . . - 6c6f63616c686f73743a32303139 2f636f6e6669672f . -:1:-:- -:1:-:- ~",
